@@ -571,6 +571,9 @@ class Cfg:
             if p is None:
                 return {"kind": "unknown", "neg": neg}
             if p.get("pj"):
+                if all(e == "*" for e in p["pj"]):
+                    cur = {"c": {"l": p["l"]}}      # reborrow / deref of a reference temp: keep following the base local
+                    continue
                 fs = place_fields(p)
                 return {"kind": "field", "fields": fs, "place": p, "neg": neg}
             ds = self.defs.get(p["l"], [])
